@@ -594,7 +594,8 @@ impl CodegenContext {
                                 .allowed("fill")
                                 .allowed("filename")
                                 .extract(id.span, &kvps)?;
-                            let name = Identifier::new(extractor.get_string(self, "name")?);
+                            let name = extractor.get_string(self, "name")?;
+                            let name = self.identifier_from(id.span, name)?;
 
                             let opts = BankOptions {
                                 name: name.clone(),
@@ -627,7 +628,8 @@ impl CodegenContext {
                                 .extract(id.span, &kvps)?;
 
                             let mut opts = SegmentOptions::default();
-                            let name = Identifier::new(extractor.get_string(self, "name")?);
+                            let name = extractor.get_string(self, "name")?;
+                            let name = self.identifier_from(id.span, name)?;
                             match extractor.try_get_i64(self, "start") {
                                 Ok(Some(val)) => {
                                     log::trace!(
@@ -649,8 +651,10 @@ impl CodegenContext {
                             if let Some(write) = extractor.try_get_i64(self, "write")? {
                                 opts.write = write != 0;
                             }
-                            opts.bank =
-                                extractor.try_get_string(self, "bank")?.map(Identifier::new);
+                            opts.bank = match extractor.try_get_string(self, "bank")? {
+                                Some(bank) => Some(self.identifier_from(id.span, bank)?),
+                                None => None,
+                            };
                             match extractor.try_get_i64(self, "pc")? {
                                 Some(target) => opts.target_address = target.into(),
                                 None => opts.target_address = opts.initial_pc,
@@ -1028,10 +1032,8 @@ impl CodegenContext {
                 }
             }
             Token::Segment { id, block, .. } => {
-                if let Some(segment_id) = self
-                    .evaluate_expression_as_string(id, true)?
-                    .map(Identifier::new)
-                {
+                if let Some(segment_id) = self.evaluate_expression_as_string(id, true)? {
+                    let segment_id = self.identifier_from(id.span, segment_id)?;
                     if !self.segments.contains_key(&segment_id) {
                         return Err(Diagnostic::error()
                             .with_message(format!("unknown identifier: {}", id.data))
@@ -1113,6 +1115,16 @@ impl CodegenContext {
         }
 
         Ok(())
+    }
+
+    /// Turns a name that was given in the program text into an identifier, or reports that it is not a valid one
+    fn identifier_from(&self, span: Span, name: String) -> CoreResult<Identifier> {
+        Identifier::try_new(name.as_str()).ok_or_else(|| {
+            Diagnostic::error()
+                .with_message(format!("'{}' is not a valid identifier", name))
+                .with_labels(vec![span.to_label()])
+                .into()
+        })
     }
 
     fn map_evaluation_error(&self, error: EvaluationError) -> Diagnostics {
